@@ -548,6 +548,11 @@ def main() -> int:
 
     warnings.simplefilter("ignore")
     _gc_setup(env.get("gc", "default"))
+    # address-space seam for objects created at *import* time (module-level rule / pattern / opset singletons):
+    # with ASLR off the import-time heap is otherwise identical in every process; n live objects per small-object
+    # size class shift every later allocation inside its pymalloc pool
+    n_pre = int(env.get("pre_skew", 0))
+    _pre_skew = [[bytes(k) for _ in range(n_pre)] for k in range(0, 480, 16)] if n_pre else None
     # import the whole stack up front so that no operation pays (or reorders) first-import allocations
     import numpy  # noqa: F401
     import onnx  # noqa: F401
